@@ -38,6 +38,12 @@ def run(ctx):
     stoks = ['@(', '!(', '+(', ')', '[', ']', '|', '/', 'a', 'b', '\\', '\\/', '\\|', '\\]', '\\\\', '[)', '[]', '[!', '[^]', '[:alpha:]', '[[:digit:]', '*', '(']
     for _ in range(4000 if ctx.quick else 40000):
         pats.append(''.join(rng.choice(stoks) for _ in range(rng.randint(3, 9))))
+    # groups nested far deeper than anyone writes them: the `|` of every level stays inside its group
+    for d_ in (3, 9, 15, 16, 17, 18, 20, 23):
+        nest_ = 'x'
+        for k_ in range(d_):
+            nest_ = '@(' + nest_ + '|' + ('b' if k_ == d_ - 1 else 'a') + ')'
+        pats += [nest_, nest_ + '|z', 'z|' + nest_, nest_.replace('@(', '+(', 1)]
     pats = sorted(set(pats))
     res_split = corr.corr_wcsplit(pats, [F('SPLIT'), F('SPLIT', 'EXTMATCH'), F('SPLIT', 'EXTMATCH', 'PATHNAME'),
                                          F('SPLIT', 'FORCEWIN', 'EXTMATCH', 'PATHNAME')])
@@ -313,6 +319,9 @@ def run(ctx):
                     ctx.counterexample('%s with limit=%d: %r gives %s but the same patterns in the order %r give %s (%d expansions in all)' % (
                         api_name, lim, p1, r1, p2, r2, tot), {'api': api_name, 'limit': lim, 'patterns': p1, 'reordered': p2, 'flags': 'BRACE'})
     ctx.counted('order of a list vs the pattern limit', nperm, nperm // 2, [{'patterns': ['a{1,2}', 'b{1,2}', 'c{1,2}'], 'limit': 6}])
+    from props import fringe
+    fringe.case_twin_lists(ctx)
+    fringe.carriers(ctx)
     return ctx.finish(RULE)
 
 
